@@ -294,7 +294,16 @@ var (
 	aeLoops     = []int{0, 1, 7, 65535, -3, 65536, 100000}
 )
 
-func aeGenCase(r *RNG, rich bool) *aeCase {
+// aeGenOpt steers aeGenCaseOpt; the zero value draws exactly the cases of aeGenCase.
+type aeGenOpt struct {
+	// keyframes: Kmax in 1..3 (key frames are forced after the first frame) and at least Kmax+2
+	// frames, so that one more picture follows the first forced key frame
+	keyframes bool
+}
+
+func aeGenCase(r *RNG, rich bool) *aeCase { return aeGenCaseOpt(r, rich, aeGenOpt{}) }
+
+func aeGenCaseOpt(r *RNG, rich bool, opt aeGenOpt) *aeCase {
 	c := &aeCase{}
 	switch r.Intn(12) {
 	case 0:
@@ -327,6 +336,13 @@ func aeGenCase(r *RNG, rich bool) *aeCase {
 	n := 1 + r.Intn(6)
 	if rich && r.Chance(1, 20) {
 		n = 7 + r.Intn(34)
+	}
+	if opt.keyframes {
+		c.kmax = []int{1, 1, 2, 2, 3}[r.Intn(5)]
+		c.kmin = r.Intn(c.kmax + 1)
+		if m := c.kmax + 2 + r.Intn(3); n < m {
+			n = m
+		}
 	}
 	g := &aeGen{r: r, w: c.w, h: c.h}
 	g.alphaCls = []int{0, 0, 1, 1, 2, 2, 3, 3}[r.Intn(8)]
@@ -370,7 +386,7 @@ func aeGenCase(r *RNG, rich bool) *aeCase {
 	// opaque sub-frame, then a frame that makes that area transparent and adds scattered opaque pixels
 	// elsewhere; key frames are not forced, so that both dispose candidates are really weighed
 	var script []string
-	if r.Chance(1, 10) {
+	if r.Chance(1, 10) && !opt.keyframes {
 		if c.w < 6 || c.h < 6 {
 			c.w, c.h = 6+2*r.Intn(6), 6+2*r.Intn(6)
 			g.w, g.h = c.w, c.h
@@ -428,6 +444,216 @@ func aeGenCase(r *RNG, rich bool) *aeCase {
 		}
 	}
 	return c
+}
+
+// ---------------------------------------------------------------------------------------------
+// threshold-crossing and wide-row canvases
+
+// aeWideFilter: the width / height thresholds of thresholds.go from 256 up (16383 x n is an edge case
+// already), other dimension 2 or 3 (one / two even rows for the even-snapped sub-frame rectangles).
+var aeWideFilter = ThresholdFilter{Units: []string{"width", "height"}, MinValue: 200, Tiny: []int{2, 3}, MaxW: 4200}
+
+// aeWideCases draws the canvases of the threshold / wide-row stream: k threshold-crossing canvases
+// (DrawThresholdCases) plus some of WideWidths x {2,3}; thorough: all of them, three sequences each.
+func aeWideCases(seed uint64, rich bool) []*aeCase {
+	kThr, kWide, reps := 8, 4, 1
+	if rich {
+		kThr, kWide, reps = 1<<20, 16, 3
+	}
+	var cs []*aeCase
+	add := func(w, h int, tc *ThresholdCase) {
+		for k := 0; k < reps; k++ {
+			idx := len(cs)
+			c := aeGenWideCase(NewRNG(seed, uint64(70_000_000+idx)), w, h, idx)
+			c.thr, c.wideTag = tc, fmt.Sprintf("%dx%d", w, h)
+			cs = append(cs, c)
+		}
+	}
+	for _, tc := range DrawThresholdCases(seed, 0xae08, kThr, aeWideFilter) {
+		tc := tc
+		add(tc.W, tc.H, &tc)
+	}
+	var ww [][2]int
+	for _, w := range WideWidths {
+		for _, h := range []int{2, 3} {
+			ww = append(ww, [2]int{w, h})
+		}
+	}
+	sr := NewRNG(seed, 70_999_999)
+	for i := len(ww) - 1; i > 0; i-- {
+		j := sr.Intn(i + 1)
+		ww[i], ww[j] = ww[j], ww[i]
+	}
+	for _, p := range ww[:mini(kWide, len(ww))] {
+		add(p[0], p[1], nil)
+	}
+	return cs
+}
+
+var aeWideStepKinds = []string{
+	"wide-line", "wide-line", "two-ends", "two-ends", "seg-1024", "seg-1024", "one-pixel", "re-transparent",
+	"erase-last+dots", "erase-last+ends", "clear-region", "repeat", "row", "column", "wide-new",
+}
+
+// aeGenWideCase: 2-4 frames over a w x h canvas with one long side. Cheap content: the first picture
+// is flat / gradient / sparse / rows (GenCheapImage), every later one a sparse change of its
+// predecessor - a line along the long side, two pixels at its ends, a segment across a multiple of
+// 1024, ... - so that the changed rectangles, the blending scans and the dispose-to-background
+// candidate work on rows (columns) longer than 1024 pixels while the codec calls stay cheap. Half of
+// the cases follow the script line, erase-the-line + dots (anywhere / at both ends): the sub-frame
+// after a long sub-frame weighs keeping the canvas against restoring the background.
+func aeGenWideCase(r *RNG, w, h, idx int) *aeCase {
+	c := &aeCase{w: w, h: h, durCls: "small"}
+	c.lossless = idx%2 == 0
+	c.mixed = r.Chance(1, 5)
+	c.quality = aeQualities[r.Intn(len(aeQualities))]
+	c.loop = aeLoops[r.Intn(len(aeLoops))]
+	c.kmin, c.kmax = 0, []int{0, 0, 9, 9, 2, 3}[r.Intn(6)]
+	ai := r.Intn(4)
+	acls := []int{AlphaNone, AlphaBinary, AlphaSemiFlat, AlphaGradient}[ai]
+	g := &aeGen{r: r, w: w, h: h, alphaCls: ai}
+	c.alphaCls = aeAlphaNames[ai]
+	for k := 0; k < 3; k++ {
+		g.pal = append(g.pal, [3]byte{byte(r.Next()), byte(r.Next()), byte(r.Next())})
+	}
+	g.last = [4]int{0, 0, w, h}
+	kind := r.Intn(NumCheapClasses)
+	n := 2 + r.Intn(3)
+	var script []string
+	if r.Bool() {
+		script = []string{"wide-line", []string{"erase-last+dots", "erase-last+ends"}[r.Intn(2)]}
+		if n < 3 {
+			n = 3
+		}
+		if c.kmax != 0 && c.kmax != 9 {
+			c.kmax = []int{0, 9}[r.Intn(2)]
+		}
+		c.genSteps = append(c.genSteps, "script:wide-line,erase+dots")
+	}
+	dur := func() int { return []int{0, 1, 40, 100, r.Intn(1000)}[r.Intn(5)] }
+	first := aeFrame{dur: dur(), w: w, h: h, pix: GenCheapImage(r, w, h, kind, acls).Pix}
+	c.genSteps = append(c.genSteps, "wide-first:"+cheapNames[kind])
+	c.frames = append(c.frames, first)
+	prev := first.pix
+	for len(c.frames) < n {
+		k := aeWideStepKinds[r.Intn(len(aeWideStepKinds))]
+		if len(script) > 0 {
+			k, script = script[0], script[1:]
+		}
+		f, k := g.wideStep(prev, k)
+		f.dur = dur()
+		c.frames = append(c.frames, f)
+		c.genSteps = append(c.genSteps, k)
+		prev = aePlace(w, h, f)
+	}
+	if r.Chance(1, 4) { // one reused caller buffer (see aeCase.reuse)
+		c.reuse, c.scribble = true, r.Bool()
+	}
+	return c
+}
+
+// wideStep: the sparse changes of the wide-row stream (the remaining kinds are those of step).
+func (g *aeGen) wideStep(prev []byte, kind string) (aeFrame, string) {
+	r := g.r
+	horiz := g.w >= g.h
+	n, m := g.w, g.h // long side, short side
+	if !horiz {
+		n, m = g.h, g.w
+	}
+	at := func(k, line int) int { // byte offset of position k along the long side on the given line
+		if horiz {
+			return 4 * (line*g.w + k)
+		}
+		return 4 * (k*g.w + line)
+	}
+	put := func(cur []byte, o int, px [4]byte) {
+		if bytes.Equal(cur[o:o+4], px[:]) {
+			px[0] ^= 0x40
+			if px[3] == 0 {
+				px[3] = 255
+			}
+		}
+		copy(cur[o:], px[:])
+	}
+	setLast := func(a, b, line0, line1 int) {
+		if horiz {
+			g.last = [4]int{a, line0, b, line1}
+		} else {
+			g.last = [4]int{line0, a, line1, b}
+		}
+	}
+	switch kind {
+	case "wide-line":
+		// nearly the whole long side of one EVEN line (the sub-frame is one pixel thick): one colour,
+		// one alpha value, every 256th pixel marked
+		cur := append([]byte(nil), prev...)
+		line := 2 * r.Intn((m+1)/2)
+		a, b := r.Intn(mini(8, n)), n-r.Intn(mini(8, n))
+		if b <= a {
+			a, b = 0, n
+		}
+		col := g.colour()
+		al := []byte{255, 128, 0, 77, 255}[r.Intn(5)]
+		for k := a; k < b; k++ {
+			px := [4]byte{col[0], col[1], col[2], al}
+			if k&255 == 0 {
+				px[1] ^= 0x80
+			}
+			put(cur, at(k, line), px)
+		}
+		setLast(a, b, line, line+1)
+		return aeFrame{w: g.w, h: g.h, pix: cur}, kind
+	case "two-ends":
+		// one pixel near either end of the long side: a changed rectangle of (almost) the full length
+		cur := append([]byte(nil), prev...)
+		e := mini(4, n)
+		put(cur, at(r.Intn(e), r.Intn(m)), g.px())
+		put(cur, at(n-1-r.Intn(e), r.Intn(m)), g.px())
+		g.last = [4]int{0, 0, g.w, g.h}
+		return aeFrame{w: g.w, h: g.h, pix: cur}, kind
+	case "erase-last+ends":
+		// the area of the previous change turns fully transparent and an opaque pixel appears near
+		// either end of the long side: BOTH dispose candidates span (almost) the full length
+		cur := append([]byte(nil), prev...)
+		l := g.last
+		for y := l[1]; y < l[3] && y < g.h; y++ {
+			for x := l[0]; x < l[2] && x < g.w; x++ {
+				o := 4 * (y*g.w + x)
+				cur[o], cur[o+1], cur[o+2], cur[o+3] = 0, 0, 0, 0
+			}
+		}
+		e := mini(3, n)
+		for _, k := range []int{r.Intn(e), n - 1 - r.Intn(e)} {
+			px := g.px()
+			px[3] = 255
+			put(cur, at(k, r.Intn(m)), px)
+		}
+		g.last = [4]int{0, 0, g.w, g.h}
+		return aeFrame{w: g.w, h: g.h, pix: cur}, kind
+	case "seg-1024":
+		// a short segment across a multiple of 1024 (or the middle of a shorter side)
+		cur := append([]byte(nil), prev...)
+		mid := n / 2
+		if n > 1024 {
+			mid = 1024 * (1 + r.Intn(n/1024))
+			if mid >= n {
+				mid = n - 1
+			}
+		}
+		a, b := maxi(0, mid-1-r.Intn(4)), mini(n, mid+1+r.Intn(4))
+		line := r.Intn(m)
+		for k := a; k < b; k++ {
+			put(cur, at(k, line), g.px())
+		}
+		setLast(a, b, line, line+1)
+		return aeFrame{w: g.w, h: g.h, pix: cur}, kind
+	case "wide-new":
+		// another cheap picture: a change of (nearly) everything, the key-frame candidate is weighed
+		acls := []int{AlphaNone, AlphaBinary, AlphaSemiFlat, AlphaGradient}[g.alphaCls&3]
+		g.last = [4]int{0, 0, g.w, g.h}
+		return aeFrame{w: g.w, h: g.h, pix: GenCheapImage(r, g.w, g.h, r.Intn(NumCheapClasses), acls).Pix}, kind
+	}
+	return g.step(prev, kind)
 }
 
 // aeEdgeCases: NewEncoder / Close error paths and the canvas limits (fixed cases, both tiers).
